@@ -248,9 +248,13 @@ class AeroModel:
         self.ground = ground
         self.rotational = rotational
         self.compressible = compressible
+        self._mode = mode
         if setup:
-            kw = {} if mode == "auto" else {"mode": mode}
-            prob.setup(force_alloc_complex=FORCE_COMPLEX, **kw)
+            self.resetup()
+
+    def resetup(self):
+        kw = {} if self._mode == "auto" else {"mode": self._mode}
+        self.prob.setup(force_alloc_complex=FORCE_COMPLEX, **kw)
 
     def set_flow(self, **kw):
         for k, v in kw.items():
@@ -404,13 +408,25 @@ class ASModel:
             if fuel:
                 # fuel mass for the distributed fuel loads: supplied as an independent input (open loop)
                 ivc.add_output("fuel_mass_src_%d" % i, val=self.flow.get("fuel_mass", 3000.0), units="kg")
+        if npoints > 1:
+            # the multipoint objective of the documented multipoint scripts: sum of the points' drag coefficients
+            from openaerostruct.integration.multipoint_comps import MultiCD
+
+            prob.model.add_subsystem("multi_CD", MultiCD(n_points=npoints))
+            for i, pn in enumerate(self.points):
+                prob.model.connect(pn + ".CD", "multi_CD.%d_CD" % i)
         self.prob = prob
-        self._nl, self._lin, self._atol = nl, lin, atol
-        kw = {} if mode == "auto" else {"mode": mode}
+        self._nl, self._lin, self._atol, self._lin_maxiter, self._mode = nl, lin, atol, lin_maxiter, mode
+        self.resetup()
+
+    def resetup(self):
+        """Problem.setup() (again) with the arguments of the first set-up; solver choices are re-applied as a script does."""
+        prob = self.prob
+        kw = {} if self._mode == "auto" else {"mode": self._mode}
         prob.setup(force_alloc_complex=FORCE_COMPLEX, **kw)
         for pn in self.points:
             coupled = getattr(getattr(prob.model, pn), "coupled")
-            configure_solvers(coupled, nl, lin, atol, lin_maxiter)
+            configure_solvers(coupled, self._nl, self._lin, self._atol, self._lin_maxiter)
         prob.final_setup()
 
     def run(self):
@@ -463,8 +479,12 @@ class StructModel:
         prob.model.connect("loads", self.d["name"] + ".loads")
         self.prob = prob
         self.name = self.d["name"]
-        kw = {} if mode == "auto" else {"mode": mode}
-        prob.setup(force_alloc_complex=FORCE_COMPLEX, **kw)
+        self._mode = mode
+        self.resetup()
+
+    def resetup(self):
+        kw = {} if self._mode == "auto" else {"mode": self._mode}
+        self.prob.setup(force_alloc_complex=FORCE_COMPLEX, **kw)
 
     def run(self):
         self.prob.run_model()
